@@ -2,6 +2,8 @@
 // through the setters), shared by C01, C02, C09, C10, C13, C20.
 #pragma once
 #include "engine.h"
+#include <algorithm>
+#include <cmath>
 #include "access.h"
 
 struct SolverCfg {
@@ -16,6 +18,7 @@ struct SolverCfg {
     double reduction = 1.0;
     int strategy = 0; // 0 take, 1 give
     int cache_coef = 1, cache_geom = 1;
+    int grid_kind = 0; // 0: the parametric grid; 1..5: a grid loaded from files (see gridFiles())
     int via_cli = 0; // 1: every option reaches the object through setParameters(argc, argv), as src/main.cpp does
 
     static const std::vector<std::string>& intKeys()
@@ -23,7 +26,7 @@ struct SolverCfg {
         static const std::vector<std::string> k = {"geometry", "problem", "alpha", "beta", "nr_exp", "ntheta_exp", "aniso", "div",
                                                     "dirbc", "fmg", "fmg_its", "fmg_cycle", "extrapolation", "max_levels", "pre",
                                                     "post", "cycle", "max_its", "norm", "threads", "strategy", "cache_coef",
-                                                    "cache_geom", "via_cli"};
+                                                    "cache_geom", "via_cli", "grid_kind"};
         return k;
     }
     int* iptr(const std::string& k)
@@ -52,6 +55,7 @@ struct SolverCfg {
         if (k == "cache_coef") return &cache_coef;
         if (k == "cache_geom") return &cache_geom;
         if (k == "via_cli") return &via_cli;
+        if (k == "grid_kind") return &grid_kind;
         return nullptr;
     }
     static const std::vector<std::string>& dblKeys()
@@ -130,7 +134,12 @@ struct SolverCfg {
         s.anisotropic_factor(aniso);
         s.divideBy2(div);
         s.write_grid_file(false);
-        s.load_grid_file(false);
+        s.load_grid_file(grid_kind > 0);
+        if (grid_kind > 0) {
+            auto f = gridFiles();
+            s.file_grid_radii(f.first);
+            s.file_grid_angles(f.second);
+        }
         s.DirBC_Interior(dirbc != 0);
         s.FMG(fmg != 0);
         s.FMG_iterations(fmg_its);
@@ -154,6 +163,14 @@ struct SolverCfg {
     // between two solves does (re-applying every option would mask state that setup()/solve() corrupt in the object)
     void applyChanged(GMGPolar& s, const SolverCfg& prev) const
     {
+        if (grid_kind != prev.grid_kind || (grid_kind > 0 && (R0 != prev.R0 || Rmax != prev.Rmax))) {
+            s.load_grid_file(grid_kind > 0);
+            if (grid_kind > 0) {
+                auto f = gridFiles();
+                s.file_grid_radii(f.first);
+                s.file_grid_angles(f.second);
+            }
+        }
         if (R0 != prev.R0) s.R0(R0);
         if (Rmax != prev.Rmax) s.Rmax(Rmax);
         if (nr_exp != prev.nr_exp) s.nr_exp(nr_exp);
@@ -179,6 +196,72 @@ struct SolverCfg {
         if (cache_coef != prev.cache_coef) s.cacheDensityProfileCoefficients(cache_coef != 0);
         if (cache_geom != prev.cache_geom) s.cacheDomainGeometry(cache_geom != 0);
     }
+    // Grids that only files can describe (load_grid_file): numbers of angular divisions that are not powers of two but
+    // coarsenable, non-uniform radii, non-uniform (midpoint-nested, antipodally paired) angles. The files are written on
+    // first use and removed at process exit.
+    //   1: 17 x 24 uniform   2: 33 x 48 uniform   3: 17 x 12 uniform   4: 25 x 40, geometric radii   5: 17 x 32, radii and
+    //   angles with alternating interval widths (fine nodes are midpoints)
+    std::pair<std::string, std::string> gridFiles() const
+    {
+        static const int kNr[6] = {0, 17, 33, 17, 25, 17}, kNt[6] = {0, 24, 48, 12, 40, 32};
+        const int nr = kNr[grid_kind], nt = kNt[grid_kind];
+        char tag[160];
+        snprintf(tag, sizeof tag, "/verif_grid_%ld_%d_%016llx", (long)getpid(), grid_kind,
+                 (unsigned long long)fnv1a(KVnum(R0) + "/" + KVnum(Rmax)));
+        const char* t = getenv("TMPDIR");
+        const std::string base = std::string(t ? t : "/tmp") + tag;
+        const std::string fr = base + "_r.txt", ft = base + "_t.txt";
+        static std::vector<std::string> written;
+        if (std::find(written.begin(), written.end(), fr) == written.end()) {
+            if (written.empty())
+                atexit([] {
+                    for (auto& f : written)
+                        std::remove(f.c_str());
+                });
+            std::vector<double> r(nr), a(nt + 1);
+            for (int i = 0; i < nr; i++) {
+                double x = (double)i / (nr - 1);
+                if (grid_kind == 4)
+                    x = (std::pow(3.0, x) - 1.0) / 2.0; // geometric
+                r[i] = R0 + (Rmax - R0) * x;
+            }
+            if (grid_kind == 5) // coarse intervals alternate 1 : 2, fine nodes are midpoints
+                for (int i = 0; i + 4 < nr + 3 && i + 4 <= nr - 1; i += 4) {
+                    const double a0 = r[i], a4 = r[i + 4], a2 = a0 + (a4 - a0) / 3.0;
+                    r[i + 1] = 0.5 * (a0 + a2);
+                    r[i + 2] = a2;
+                    r[i + 3] = 0.5 * (a2 + a4);
+                }
+            r[0]      = R0;
+            r[nr - 1] = Rmax;
+            for (int j = 0; j <= nt; j++)
+                a[j] = 2 * M_PI * j / nt;
+            if (grid_kind == 5) {
+                const int m = nt / 2; // half turn; blocks of 4 fine intervals with coarse widths 1 : 2
+                for (int j = 0; j + 4 <= m; j += 4) {
+                    const double a0 = M_PI * j / m, a4 = M_PI * (j + 4) / m, a2 = a0 + (a4 - a0) / 3.0;
+                    a[j + 1] = 0.5 * (a0 + a2);
+                    a[j + 2] = a2;
+                    a[j + 3] = 0.5 * (a2 + a4);
+                }
+                for (int j = 0; j < m; j++)
+                    a[m + j] = a[j] + M_PI;
+            }
+            a[0]  = 0.0;
+            a[nt] = 2 * M_PI;
+            FILE* f = fopen(fr.c_str(), "w");
+            for (double v : r)
+                fprintf(f, "%.17g\n", v);
+            fclose(f);
+            f = fopen(ft.c_str(), "w");
+            for (double v : a)
+                fprintf(f, "%.17g\n", v);
+            fclose(f);
+            written.push_back(fr);
+            written.push_back(ft);
+        }
+        return {fr, ft};
+    }
     // the whole configuration as a command line (option names of the shipped parser)
     std::vector<std::string> argvAll() const
     {
@@ -186,7 +269,8 @@ struct SolverCfg {
         return {"gmgpolar", "--verbose", "0", "--paraview", "0", "--geometry", I(geometry), "--problem", I(problem), "--alpha_coeff", I(alpha),
                 "--beta_coeff", I(beta), "--kappa_eps", KVnum(kappa_eps), "--delta_e", KVnum(delta_e), "--alpha_jump", KVnum(alpha_jump),
                 "--Rmax", KVnum(Rmax), "--R0", KVnum(R0), "--nr_exp", I(nr_exp), "--ntheta_exp", I(ntheta_exp), "--anisotropic_factor", I(aniso),
-                "--divideBy2", I(div), "--write_grid_file", "0", "--load_grid_file", "0", "--DirBC_Interior", I(dirbc != 0), "--FMG", I(fmg != 0),
+                "--divideBy2", I(div), "--write_grid_file", "0", "--load_grid_file", I(grid_kind > 0), "--file_grid_radii", grid_kind > 0 ? gridFiles().first : std::string("none"),
+                "--file_grid_angles", grid_kind > 0 ? gridFiles().second : std::string("none"), "--DirBC_Interior", I(dirbc != 0), "--FMG", I(fmg != 0),
                 "--FMG_iterations", I(fmg_its), "--FMG_cycle", I(fmg_cycle), "--extrapolation", I(extrapolation), "--maxLevels", I(max_levels),
                 "--preSmoothingSteps", I(pre), "--postSmoothingSteps", I(post), "--multigridCycle", I(cycle), "--maxIterations", I(max_its),
                 "--residualNormType", I(norm), "--absoluteTolerance", KVnum(abs_tol), "--relativeTolerance", KVnum(rel_tol),
